@@ -308,6 +308,34 @@ def sample_seed():
     rep = replay_sample_seed(5, 3)
     if rep:
         return res.out("violated", rep, {"replay": {"kind": "kn", "func": "vf.kernels.c20:replay_sample_seed", "args": dict(start_seed=5, n=3)}})
+    # symbolic: the seed handed to task i by sensitivity_sample_command equals start_seed + i for every integer pair
+    try:
+        fs = X.func(X.load(TOOLS), "sensitivity_sample_command")
+        stmts = []
+        for n in ast.walk(fs):
+            if isinstance(n, ast.Assign) and len(n.targets) == 1 and X.dotted(n.targets[0]) in ("start_seed", "seed"):
+                stmts.append(n)
+        stmts.sort(key=lambda n: n.lineno)
+        dom = A.RLX()
+        ss, iv = dom.int_var("start_seed"), dom.int_var("i")
+        names = A.exec_stmts(stmts, A.Env(dom, {"start_seed": ss, "i": iv}))
+        sv = dom.lift(names["seed"])
+        r, m = solve(res, dom.side + [ss.t >= 0, ss.t <= 2 ** 31, iv.t >= 0, iv.t <= 10 ** 6, sv.t != ss.t + iv.t], 30000)
+        res.encoded.append("sensitivity_sample_command: " + " ; ".join(X.src(x) for x in stmts))
+        if r == "sat":
+            s0, i0 = int(A.real_to_fraction(m, ss.t)), int(A.real_to_fraction(m, iv.t))
+            rep = replay_sample_tasks(s0, min(i0 + 1, 4))
+            if rep:
+                return res.out("violated", rep, {"replay": {"kind": "kn", "func": "vf.kernels.c20:replay_sample_tasks", "args": dict(start_seed=s0, n=min(i0 + 1, 4))}})
+        elif r != "unsat":
+            res.notes.append(f"symbolic seed check: {r}")
+    except (A.Unsupported, X.NotFound, KeyError) as e:
+        res.notes.append(f"symbolic seed check not encodable: {e}")
+    # the command itself must build task i with seed start_seed + i - also for the boundary value 0
+    for ss in (0, 1, 7, 42):
+        rep = replay_sample_tasks(ss, 3)
+        if rep:
+            return res.out("violated", rep, {"replay": {"kind": "kn", "func": "vf.kernels.c20:replay_sample_tasks", "args": dict(start_seed=ss, n=3)}})
     if key is not None and key in seed_params:
         return res.out("discharged", f"seed of sample i reaches default_rng through parameter {key!r}; start_seed+i confirmed on the real function")
     return res.out("inconclusive", f"cannot relate params[{key!r}] to {seed_params}")
@@ -392,4 +420,50 @@ def replay_snap_trace(tps):
                     return f"C20:snap_changed_column_{col}"
         return ""
     finally:
+        shutil.rmtree(d, ignore_errors=True)
+
+
+def replay_sample_tasks(start_seed, n):
+    """Run the real sensitivity_sample_command with the process pool and the per-task function stubbed:
+    task i must carry seed start_seed + i."""
+    import_repo()
+    import tempfile, os, shutil, io, contextlib
+    import eudoxia.tools as T
+    d = tempfile.mkdtemp(prefix="vsens2_")
+    tasks = []
+
+    class FakePool:
+        def __init__(self, processes=None):
+            pass
+
+        def __enter__(self):
+            return self
+
+        def __exit__(self, *a):
+            return False
+
+        def map(self, fn, items):
+            out = []
+            for it in items:
+                tasks.append(it)
+                out.append((it.workload_index, True))
+            return out
+    real_mp = T.multiprocessing
+    try:
+        pf = os.path.join(d, "p.toml")
+        open(pf, "w").write("duration = 2\nticks_per_second = 10\n")
+
+        class MP:
+            Pool = FakePool
+        T.multiprocessing = MP
+        with contextlib.redirect_stdout(io.StringIO()):
+            T.sensitivity_sample_command(pf, os.path.join(d, "out"), n, start_seed=start_seed, jitter_seed=1)
+        if len(tasks) != n:
+            return f"C20:sensitivity_sample_built_{len(tasks)}_tasks_for_{n}_samples"
+        for i, t in enumerate(tasks):
+            if t.seed != start_seed + i or t.workload_index != i:
+                return f"C20:sample_{i}_uses_seed_{t.seed}_not_{start_seed}+{i}"
+        return ""
+    finally:
+        T.multiprocessing = real_mp
         shutil.rmtree(d, ignore_errors=True)
